@@ -368,12 +368,12 @@ pub fn canon_ref(norm: Vec<char>, em: &[Emitted]) -> RefOut {
 /// Reference run of a complete input under the same configuration.
 pub fn run_ref(cfg: &TokCfg, input: &str) -> RefOut {
     let s = if cfg.discard_bom { input.strip_prefix('\u{feff}').unwrap_or(input) } else { input };
-    let cd = cfg.cdata;
     let rc = rtok::Cfg {
         start: start_state(cfg.start).1,
         last_start_tag: cfg.last_start_tag.map(|s| s.to_string()),
-        cdata_allowed: &move || cd,
-        switch: &policy,
+        cdata_allowed: std::rc::Rc::new(std::cell::Cell::new(cfg.cdata)),
+        switch: policy,
+        _m: std::marker::PhantomData,
     };
     let em = rtok::RTok::run_all(rc, s);
     canon_ref(rtok::normalize(s), &em)
@@ -381,12 +381,12 @@ pub fn run_ref(cfg: &TokCfg, input: &str) -> RefOut {
 
 pub fn ref_ctl_key(cfg: &TokCfg, input: &str) -> String {
     let s = if cfg.discard_bom { input.strip_prefix('\u{feff}').unwrap_or(input) } else { input };
-    let cd = cfg.cdata;
     let rc = rtok::Cfg {
         start: start_state(cfg.start).1,
         last_start_tag: cfg.last_start_tag.map(|s| s.to_string()),
-        cdata_allowed: &move || cd,
-        switch: &policy,
+        cdata_allowed: std::rc::Rc::new(std::cell::Cell::new(cfg.cdata)),
+        switch: policy,
+        _m: std::marker::PhantomData,
     };
     rtok::RTok::run_partial(rc, s).ctl_key()
 }
